@@ -36,7 +36,7 @@ try:
         env = dict(os.environ, VERIF_REPO=scratch, VERIF_EVIDENCE_DIR="/tmp/seedchk-ev", VERIF_REPLAY_DIR="/tmp/seedchk-rp")
         t0 = time.time()
         r = subprocess.run([os.path.join(VERIF, "bin", "check"), p, "--tier", "quick"], capture_output=True, text=True, env=env)
-        lines = [l for l in r.stdout.splitlines() if l.startswith(("VIOLATION", "  class", "KNOWN", "UNREPRO", "NONDET", p))]
+        lines = [l for l in r.stdout.splitlines() if l.startswith(("VIOLATION", "  class", "UNREPRO", "NONDET", p))]
         print("== %s rc=%d (%.0fs)" % (p, r.returncode, time.time() - t0))
         for l in lines[:8]:
             print("   " + l[:300])
